@@ -121,7 +121,11 @@ def main(tier, seed):
     for n in range(0, 6 if tier == "quick" else 8):
         rs = [z3.Real(f"rtg_r{i}") for i in range(n)]
         g = z3.Real("rtg_gamma")
-        out = reinforce.discounted_reward_to_go(list(rs), g)
+        try:
+            out = reinforce.discounted_reward_to_go(list(rs), g)
+        except Exception as ex:  # the code no longer runs on plain z3 reals (e.g. vectorised numpy): left to the E2 run below
+            rep.inconclusive_(f"discounted_reward_to_go[n={n}]", f"not executable on z3 reals: {type(ex).__name__}")
+            continue
         if len(out) != n:
             rep.violation("discounted_reward_to_go:length", f"length {len(out)} != {n}", {"n": n})
             continue
